@@ -21,7 +21,7 @@ def handle (j : Json) : Json :=
   let op := jstr j "op"
   if op == "run" then
     let p : Plan := { tmgrInFails := jbool j "tmgr_in", agentInFails := jbool j "agent_in", exec := execOf (jget j "exec"),
-                      stageOnError := jbool j "on_error", agentOutFails := jbool j "agent_out", tmgrOutFails := jbool j "tmgr_out" }
+                      stageOnError := jbool j "on_error", agentOutFails := jbool j "agent_out", tmgrOutFails := jbool j "tmgr_out", hasTmgrOut := jbool j "has_tmgr_out" }
     let r := run p
     Json.mkObj [("emits", jl (r.emits.map stJson)), ("exit", match r.exitCode with | some c => jn c | none => Json.null),
                 ("exception", Json.bool r.exception), ("final", stJson (final p))]
